@@ -111,6 +111,9 @@ func (sr *sessRun) script(toks []string) {
 			sr.feedScript(p, strings.HasPrefix(next, "H"))
 		case 'H':
 			// consumed together with the stanza
+		case 'A':
+			// the model says the serve loop gives up the hand-off here and the handler gets the stanza
+			sr.expectAbandon()
 		case 'g':
 			sr.trace = append(sr.trace, t)
 			sr.serve = "offering"
@@ -164,6 +167,7 @@ func (sr *sessRun) feedScript(p peerStanza, expectHandler bool) {
 	k := sr.nread
 	sr.nread++
 	sr.badK[k] = p.bad
+	sr.stz[k] = p
 	outBefore := sr.rs.Out.Len()
 	autoReply := p.kind == 'i' && p.typ != 'r' && p.typ != 'e'
 	want := sr.lookupShadow(p)
